@@ -470,6 +470,13 @@ func c15Addresses(run *vfRun, w *vfWorld) {
 		if err != nil {
 			run.T.Fatalf("net set %s rp xff: %v", ns.Name, err)
 		}
+		// reverse-proxy mode OFF but a real-client-IP header NAMED explicitly (each of the accepted names in turn): naming the
+		// header does not turn it on — the client address stays the peer address (round 6)
+		namedHdr := []string{"X-Forwarded-For", "X-Real-IP", "X-ProxyUser-IP"}[len(ns.Nets)%3]
+		directNamed, err := w.NewProxy(append(append([]string{}, flags...), "--real-client-ip-header="+namedHdr)...)
+		if err != nil {
+			run.T.Fatalf("net set %s direct with named header: %v", ns.Name, err)
+		}
 		// the same networks configured in reverse order: the decision must not depend on the order
 		var revFlags []string
 		for i := len(flags) - 1; i >= 0; i-- {
@@ -520,6 +527,22 @@ func c15Addresses(run *vfRun, w *vfWorld) {
 			}
 			try("remoteaddr", direct, vfGET("/x").From(hostport), true)
 			try("remoteaddr-reversed-config", reversed, vfGET("/x").From(hostport), true)
+			// named header, reverse-proxy off: the header carries an address on the OTHER side of the decision
+			if ad.Pos != "universe" || i%4 == 0 {
+				other := "203.0.113.77"
+				if !want {
+					for _, o := range addrs {
+						if c15InAny(ref, o.A) {
+							other = o.A.String()
+							break
+						}
+					}
+				}
+				if c15InAny(ref, netip.MustParseAddr(other)) != want {
+					try("remoteaddr-named-header-off", directNamed, vfGET("/x", namedHdr, other).From(hostport), true)
+					try("remoteaddr-named-header-off-auth", directNamed, vfGET("/oauth2/auth", namedHdr, other).From(hostport), i%2 == 0)
+				}
+			}
 			// reverse-proxy mode, the real-client-IP header is present but its (first) element is not an address: the client
 			// address is then not inside any network — the address of the PEER (the front proxy, here inside a configured
 			// network) must not be used instead. (No header at all is a different situation, see below.)
